@@ -1398,6 +1398,6 @@ GLOBAL_MODELS = [(R(r'<(std::ops::|core::ops::)?Range as Iterator>::next$'), m_r
                  (R(r'<&?(mut )?(\w+::)*Vec as IntoIterator>::into_iter$'), m_vec_into_iter_items),
                  (R(r'(^|::)slice::(<impl[^>]*>::)?iter$'), m_slice_iter),
                  (R(r'<(std::slice::|core::slice::)?Iter as Iterator>::(copied|cloned)$'), m_iter_copied),
-                 (R(r'<((std|core)::(slice|iter)::)?(Iter|Copied|Cloned) as Iterator>::next$'), m_slice_iter_next),
-                 (R(r'<((std|core)::(slice|iter)::)?(Iter|Copied|Cloned) as Iterator>::(find|any|all|position)$'), m_iter_search),
+                 (R(r'<((std|core|alloc)::(slice|iter|vec)::)?(Iter|IntoIter|Copied|Cloned) as Iterator>::next$'), m_slice_iter_next),
+                 (R(r'<((std|core|alloc)::(slice|iter|vec)::)?(Iter|IntoIter|Copied|Cloned) as Iterator>::(find|any|all|position)$'), m_iter_search),
                  (R(r'<(std::ops::|core::ops::)?Range as IntoIterator>::into_iter$'), m_range_into_iter)] + GLOBAL_MODELS
